@@ -42,6 +42,9 @@ def gen_ir(r, fmt):
             # a description that announces its default with one of the other DEFAULTS_TO_VARIANTS phrases
             p["doc"] = r.choice(["a count. Default value is 3", "the size. Default: 3", "a ratio. Default value is 0.5"])
             p.pop("default", None)
+        elif k < 0.53:
+            p["typ"] = r.choice(["float", "Optional[float]"])
+            p["default"] = r.choice([1e+20, 2.5e+16, 1e-10, 123456789.125])  # floats whose repr uses exponent notation / many digits
     if r.random() < 0.3:
         ir["doc"] = r.choice(["Summary line.\n\nLonger description\nover two lines.", "  Indented summary", "Summary"])
     # descriptions that span several lines (a line break inside a parameter's or the return's description is legal input)
@@ -118,6 +121,11 @@ def compare(chk, case, views):
                     if f == "doc":
                         sig["change"] = diff_kind(pa[f], pb[f])
                         sig["edd"] = edd
+                        # root-cause marker (Google / NumPy "require_default" latch): the entry has no default in the input and follows one that has
+                        if ent == "param" and name in ir["params"] and "default" not in ir["params"][name]:
+                            names_ = list(ir["params"])
+                            if any("default" in ir["params"][m] for m in names_[: names_.index(name)]):
+                                sig["latch_candidate"] = True
                     elif f == "default":
                         sig["from"] = "absent" if pa[f] is None else pa[f][0]
                         sig["to"] = "absent" if pb[f] is None else pb[f][0]
